@@ -193,7 +193,8 @@ PROPS["C13"] = dict(
          "uniform, payload 0..MTU-28 with odd/even and boundary lengths, IPv4 ones optionally as two out-of-order fragments, one/fd-scatter/two-view "
          "delivery), bursts of 1-30 requests pending at once, requests to foreign/broadcast addresses and to a second address of the stack that is "
          "added and removed during the run (answered iff currently assigned), unsolicited replies and other ICMP types, clock advances; non-trivial = at least one request was answered; distinct = distinct event-log hash",
-    expected_probes=["answered", "burst_over_queue_capacity", "fragmented_request", "address_added", "address_removed", "requests_to_the_second_address"],
+    expected_probes=["answered", "burst_over_queue_capacity", "fragmented_request", "address_added", "address_removed", "requests_to_the_second_address",
+                     "primary_address_removed", "link_write_faults_armed"],
     real=NET_REAL, stubs=NET_STUBS + PEER_STUB, assumptions=NET_ASSUME + [
         "the property does not quantify over schedules: yield perturbation is off in the gating runs"],
     hang_is_violation=True,
